@@ -94,6 +94,8 @@ type VC struct {
 	results   []SpecVal
 	assumed   map[string]bool // names of trusted contracts / axioms used
 	mapRanges map[ssa.Value]*mapRange
+	guarded   map[ssa.Value]*Guard
+	curState  *State
 	defTags   []string
 
 	havocEverythingSeen bool
@@ -430,7 +432,7 @@ func (w *World) NewVC(fn *ssa.Function, fc *FuncContract) *VC {
 		edges: map[[2]int]*edge{}, blockPC: map[int]string{}, blockSt: map[int]*State{},
 		loopHead: map[int]*loopInfo{}, debugVars: map[string][]debugDef{}, ordinals: map[string]int{},
 		globals: map[*ssa.Global]int{}, callCount: map[string]int{}, params: map[string]SpecVal{}, assumed: map[string]bool{},
-		mapRanges: map[ssa.Value]*mapRange{}, usedLemmas: map[string]bool{}, usedFns: map[string]bool{}, labels: map[string]*stateLabel{}, opaquePreds: map[string]*opaqueInfo{}, heapAlloc: map[string]string{}, undefinedHeap: map[string]bool{}}
+		mapRanges: map[ssa.Value]*mapRange{}, guarded: map[ssa.Value]*Guard{}, usedLemmas: map[string]bool{}, usedFns: map[string]bool{}, labels: map[string]*stateLabel{}, opaquePreds: map[string]*opaqueInfo{}, heapAlloc: map[string]string{}, undefinedHeap: map[string]bool{}}
 	if fn.Pkg != nil {
 		vc.pkg = fn.Pkg.Pkg
 	} else if recv := fn.Signature.Recv(); recv != nil {
@@ -964,9 +966,9 @@ func (vc *VC) Generate() (err error) {
 	if fn.Blocks == nil {
 		return fmt.Errorf("no body")
 	}
-	if fn.Recover != nil {
-		panic(unsupported("recover block"))
-	}
+	// fn.Recover (present whenever the function defers) is where control resumes after a recovered panic.
+	// Every panic site of the function carries its own obligation, so the block is dead in verified code;
+	// it has no predecessor and is never executed here. A `recover()` call itself stays unsupported.
 	vc.analyseLoops()
 	vc.collectDebug()
 
@@ -991,6 +993,23 @@ func (vc *VC) Generate() (err error) {
 	}
 	for _, fv := range fn.FreeVars {
 		_ = vc.val(fv)
+	}
+	if fn.Synthetic == "package initializer" && fn.Pkg != nil {
+		// the package's variables hold their zero values when its initializer starts (Go spec)
+		var names []string
+		for n, m := range fn.Pkg.Members {
+			if g, ok := m.(*ssa.Global); ok && g.Name() != "init$guard" {
+				names = append(names, n)
+			}
+		}
+		sort.Strings(names)
+		for _, n := range names {
+			g := fn.Pkg.Members[n].(*ssa.Global)
+			gt := g.Type().Underlying().(*types.Pointer).Elem()
+			for _, lf := range vc.enc.Leaves(gt) {
+				vc.assume("true", eq(sx("select", vc.heapGet(st, lf.heap), pathLoc(vc.globalLoc(g), lf.steps)), vc.enc.Zero(lf.t)))
+			}
+		}
 	}
 	vc.assumeGlobalInvs(st, "true")
 	vc.assumeAxioms()
